@@ -11,6 +11,7 @@ import signal
 import subprocess
 import sys
 import time as _time
+from _thread import get_ident as _get_ident
 
 _real_Popen = subprocess.Popen
 TimeoutExpired = subprocess.TimeoutExpired
@@ -116,6 +117,11 @@ class StepClock:
         mon.set_events(self._tool, ev.PY_START | ev.JUMP)
 
     def _on(self, code, offset, *rest):
+        sch = self.sched
+        if sch is not None and sch.multi and _get_ident() != sch.cur.ident:
+            # a real thread that does not hold the baton (it is on its way to, or back from, its gate): the few
+            # bytecodes it executes there run concurrently with the baton holder and must not be observed
+            return
         self.n += 1
         if self.limit is not None and self.n > self.limit:
             self.exhausted = True
@@ -642,13 +648,25 @@ def install(world, step_monitoring):
     SimPopen.world = world
     subprocess.Popen = SimPopen
     clock = world.clock
-    _time.time = clock.time
-    _time.monotonic = clock.monotonic
-    _time.perf_counter = clock.monotonic
-    _time.time_ns = clock.time_ns
-    _time.monotonic_ns = clock.monotonic_ns
-    _time.perf_counter_ns = clock.monotonic_ns
-    _time.sleep = clock.sleep
+    subst = {_time.time: clock.time, _time.monotonic: clock.monotonic, _time.perf_counter: clock.monotonic,
+             _time.time_ns: clock.time_ns, _time.monotonic_ns: clock.monotonic_ns,
+             _time.perf_counter_ns: clock.monotonic_ns, _time.sleep: clock.sleep}
+    # modules that took their own reference at import (`from time import monotonic as _time` in threading, queue,
+    # subprocess, ...) must read the simulated clock too: one forgotten real clock breaks replay
+    for mod in list(sys.modules.values()):
+        name = getattr(mod, "__name__", "") or ""
+        if name == "sim" or name.startswith("sim."):
+            continue
+        d = getattr(mod, "__dict__", None)
+        if not isinstance(d, dict):
+            continue
+        for k, v in list(d.items()):
+            try:
+                r = subst.get(v)
+            except TypeError:
+                continue
+            if r is not None:
+                d[k] = r
 
     real_kill, real_waitpid = os.kill, os.waitpid
 
